@@ -123,16 +123,9 @@ def routing_problems(case, out):
         if bad:
             psc = case["map"]["scaffolds"][k - 1]
             info = pg.read_scaffold_tags(psc)
-            known = (
-                not info["painted"]
-                and not info["hap"]
-                and not pg.piece_special(piece)
-                and dest in (None, "Contaminant")
-                and name_derived(psc[0][0], hap_tags)
-                and {str(b).lower() for b in bad} == {name_key(psc[0][0])}
-            )
-            if not known and short_prefixed(psc[0][0], hap_tags) and isinstance(dest, tuple) and not info["painted"] and not info["hap"] and set(bad) == {None}:
-                known = "haplotype-prefix-name-shape"
+            src0 = psc[0][0]  # the input scaffold whose name the unplaced Pretext scaffold is known by
+            unplaced_untagged = not info["painted"] and not info["hap"] and not pg.piece_special(piece)
+            known = unplaced_untagged and class_of(src0, first_contig[src0], dest, bad, hap_tags)
             problems.append(
                 (f"interior of piece {piece[0]}:{piece[1]}-{piece[2]} {piece[4]} of Scaffold_{k} belongs in {show(dest)} but {bad} bases were written elsewhere", known)
             )
@@ -141,9 +134,7 @@ def routing_problems(case, out):
         keys = where_of(in_toks[name])
         bad = {key: n for key, n in keys.items() if not key_matches(key, dest)}
         if bad:
-            known = name_derived(first_contig[name], hap_tags) and {str(b).lower() for b in bad} == {name_key(first_contig[name])} and dest is None
-            if not known and short_prefixed(first_contig[name], hap_tags) and isinstance(dest, tuple) and set(bad) == {None}:
-                known = "haplotype-prefix-name-shape"
+            known = class_of(name, first_contig[name], dest, bad, hap_tags)
             problems.append((f"input scaffold {name!r} is absent from the map and belongs in {show(dest)} but {bad} bases were written elsewhere", known))
     for key in pg.SPECIAL_TAGS:
         if key in out and out[key]["curated"]:
@@ -152,6 +143,31 @@ def routing_problems(case, out):
     if len(lows) != len(set(lows)):
         problems.append((f"two output assemblies for one haplotype: {list(out)}", False))
     return problems, judged
+
+
+def class_of(scaffold_name, contig_name, dest, bad, hap_tags):
+    """
+    class of a misrouted unplaced, untagged scaffold (a label for triage; the oracle has already decided it is misrouted)
+      True = "name-derived-haplotype"  ONLY IF the scaffold name and its first contig name match ^[^_]+_.+_\\d+$ with the
+             same prefix before the first '_', that prefix is NOT a haplotype tag used in the map, the statement sends the
+             scaffold to the primary assembly, and all misrouted bases are in the assembly whose key equals that prefix
+             (case-insensitively)
+      "haplotype-prefix-name-shape"    ONLY IF the scaffold name and its first contig name start (case-insensitively) with
+             <haplotype tag used in the map>_ , neither matches ^[^_]+_.+_\\d+$, the statement sends the scaffold to that
+             haplotype, and all misrouted bases are in the primary (None) assembly
+      False  anything else: plain failure
+    """
+    wrong_keys = set(bad)
+    if dest is None and name_derived(scaffold_name, hap_tags) and name_derived(contig_name, hap_tags):
+        if name_key(scaffold_name) == name_key(contig_name) and all(isinstance(k, str) for k in wrong_keys):
+            if {k.lower() for k in wrong_keys} == {name_key(contig_name)}:
+                return True
+    if isinstance(dest, tuple) and wrong_keys == {None}:
+        if short_prefixed(scaffold_name, hap_tags) and short_prefixed(contig_name, hap_tags):
+            h1, h2 = hap_by_name(scaffold_name, hap_tags), hap_by_name(contig_name, hap_tags)
+            if h1.lower() == h2.lower() == dest[1]:
+                return "haplotype-prefix-name-shape"
+    return False
 
 
 def short_prefixed(name, hap_tags):
@@ -177,7 +193,8 @@ def check(case, col, known_failures=None):
         classes = sorted({"name-derived-haplotype" if k is True else k for _, k in problems if k})
         msg = "; ".join(m for m, _ in problems[:3])
         if classed and known_failures is not None:
-            # recorded apart so that instances of a named class do not exhaust the failure budget
+            # a failure carries classes only if EVERY problem of the case has one (else it is a plain failure);
+            # classed cases are recorded apart so that they do not exhaust the failure budget
             known_failures.setdefault(tuple(classes), []).append({"message": msg, "input": case, "classes": classes})
         else:
             col.fail(msg, case, classes if classed else ())
